@@ -77,6 +77,29 @@ def run(ctx):
                     q["eq"] = scalarize(p["eq"])
                 pa.append(p)
                 pb.append(q)
+        # constraints that are active at the optimum, some components active and some not (multipliers differ per component),
+        # enough evaluations for multiplier / penalty updates to matter
+        for nm in names:
+            if nm == "NLOPT_GN_AGS":
+                continue
+            for rep in range(16 if ctx.thorough else 4):
+                n = rng.choice([2, 2, 3])
+                p = problems.gen_problem(rng, A, alg_name=nm, n=n, with_constraints=False, box="finite", maxeval=rng.choice([60, 150, 300]), allow_max=(rep % 4 == 3))
+                for k in ("maxtime", "clockq", "clock0", "stopval", "xtol_abs", "xw"):
+                    p.pop(k, None)
+                p["lb"], p["ub"] = [-3.0] * n, [3.0] * n
+                p["x0"] = [rng.uniform(-0.3, 0.3) for _ in range(n)]
+                p["obj"] = 0
+                d = [rng.gauss(0, 1) for _ in range(n)]
+                nd = sum(t * t for t in d) ** 0.5 or 1.0
+                p["oc"] = [rng.uniform(1.8, 2.6) * t / nd for t in d]
+                m = rng.choice([2, 3])
+                # ball constraints with radii b + 0.1*j: the smallest is active, the others may be slack; plus a slack half-space
+                p["ineq"] = "v:%d:1:%s:%s:0;v:2:0:-:%s:%d" % (m, problems.hl([0.0] * m), hexd(rng.uniform(0.5, 1.5)), hexd(rng.uniform(3.0, 6.0)), m)
+                q = dict(p)
+                q["ineq"] = scalarize(p["ineq"])
+                pa.append(p)
+                pb.append(q)
         def has_big_vector(p):
             return any(it.startswith("v:") and int(it.split(":")[1]) > 1 for it in (p.get("ineq", "") + ";" + p.get("eq", "")).split(";") if it)
         ba = runcheck.run_batch(ctx, bdir, A, pa, [], "vector constraints", blame_crash=False)
